@@ -68,7 +68,7 @@ def gen_script(r, rounds=(1, 2), max_edits=7, names=None, odd=True, sessions=("s
                 path = r.pick(sorted(tr.files))
                 ls = tr.files[path]
                 kind = r.weighted([(4, "ins"), (2, "del"), (3, "rep"), (2, "mod"), (1, "indent"), (1 if odd else 0, "odd"),
-                                   (2 if actor == "H" else 0, "wipe"), (2, "modchain")])
+                                   (2 if actor == "H" else 0, "wipe"), (2, "modchain"), (2 if actor == "H" else 0, "undo")])
                 if kind == "ins" or not ls:
                     pos, n = r.range(0, len(ls)), r.range(1, 3)
                     tr.insert(r, path, pos, n, actor)
@@ -79,6 +79,16 @@ def gen_script(r, rounds=(1, 2), max_edits=7, names=None, odd=True, sessions=("s
                     tr.counter += 1
                     ls.insert(pos, [r.pick(ODD_LINES) + f" #{tr.counter}", actor])
                     d = ("odd", path, pos)
+                elif kind == "undo":
+                    # a person types a scratch line and takes it out again: the work tree is back in a state it was in
+                    # before (A - B - A); with a redundant checkpoint in the B state this is a schedule of its own
+                    pos = r.range(0, len(ls))
+                    tr.counter += 1
+                    ls.insert(pos, [f"TMP{tr.counter} scratch", "H"])
+                    ops.append(("edit", "H", path, tr.text(path), ("tmpins", path, pos), []))
+                    kinds["tmpins:human"] = kinds.get("tmpins:human", 0) + 1
+                    del ls[pos]
+                    d = ("undo", path, pos)
                 elif kind == "wipe":
                     # a person rewrites EVERY line an agent wrote in this file (the file is human-only again)
                     k_ = 0
